@@ -508,6 +508,8 @@ class Interp(Exec):
                 for cn, srt in comps.items():
                     if cn not in self.st.objheap:
                         self.st.objheap[cn] = self.fresh("h_heap_" + cn, z3.ArraySort(ObjSort, srt))
+        if __import__("os").environ.get("PYVC_DEBUG_EFF"):
+            print("EFF", sorted(eff["ghosts"]), sorted(eff["locals"]), file=__import__("sys").stderr)
         for g in list(self.st.ghost):
             if g in eff["ghosts"]:
                 self.st.ghost[g] = self.havoc_value(self.st.ghost[g], "h_ghost_" + g)
